@@ -362,7 +362,8 @@ class Builder:
             v = self.pick([ir.Hi(ir.LRef(L)), ir.Hi(ir.Pos(L, self.pos_base())), ir.Hi(ir.Off(L))])
             return ir.Insn(mn, {'rd': self.reg(), 'imm': v})
         if self.chance(self.p['p_compressible']) and mn == 'lui':
-            v = self.pick([1, 31, 32, -1, -32, -33, 0, 0xfffe0, 0xfffff, 0xfffdf, 16, 0x1f, 0x20])
+            v = self.pick([1, 31, 32, -1, -32, -33, 0, 0xfffe0, 0xfffff, 0xfffdf, 16, 0x1f, 0x20, 0xfffe1, 0xfffef, 0xffff0, 0xffff1,
+                           self.i(0xfffe0, 0xfffff), self.i(-32, 31)])
             return ir.Insn('lui', {'rd': self.reg(pool=[0, 1, 2, 3, 8, 15, 31]), 'imm': ir.Lit(v)})
         v = self.edgy(-0x80000, 0xfffff, extra=(0x7ffff, 0x80000, 0xfffe0))
         return ir.Insn(mn, {'rd': self.reg(), 'imm': ir.Lit(v)})
@@ -391,6 +392,19 @@ class Builder:
                         'c.srai', 'c.andi', 'c.sub', 'c.xor', 'c.or', 'c.and', 'c.slli', 'c.lwsp', 'c.jr', 'c.mv',
                         'c.ebreak', 'c.jalr', 'c.add', 'c.swsp'])
         self.tags.add('explicit_c')
+        if self.labels and self.chance(0.12):
+            # an explicit c.* instruction whose immediate depends on a label (in range only when the label is close: most of these
+            # are refused, which is fine and counted)
+            self.tags.add('explicit_c_labelval')
+            self.expected_ok = False
+            L = self.label()
+            v = self.pick([ir.Lo(ir.Off(L)), ir.Off(L), ir.Lo(ir.LRef(L)), ir.LRef(L)])
+            k = self.i(0, 2)
+            if k == 0:
+                return ir.Insn('c.li', {'rd_rs1': self.reg(self.i(1, 31)), 'imm': v})
+            if k == 1:
+                return ir.Insn('c.addi', {'rd_rs1': self.reg(self.i(1, 31)), 'imm': v})
+            return ir.Insn('c.lwsp', {'rd_rs1': self.reg(self.i(1, 31)), 'imm': v})
         ops = {}
         rng = rvref.C_IMM_RANGE.get(mn)
         for f in rvref.C_OPERANDS[mn]:
